@@ -22,14 +22,14 @@ RULE = ('simulated NLA / CHIC molecules of 1..5 fragments: fragment lengths 60..
 ASSUMPTIONS = ['base calls are only checked where every sensible likelihood agrees: unanimous observations with Q>=10 give that base; two different bases '
                'with identical quality multisets give N; one base dominating in count and in every quality gives that base',
                'the MD tag is parsed tolerantly (missing zero separators accepted): only its meaning is compared with the reference']
-MIN_NONTRIVIAL = {'quick': 150, 'thorough': 2500}
+MIN_NONTRIVIAL = {'quick': 150, 'thorough': 30000}
 REQUIRED_MONITORS = ['history:grown_molecules', 'lib:reads_with_indel', 'ret:deduplicate_majority', 'reads:checked', 'reads:gapped', 'reads:reverse', 'bases:decidable_checked', 'bases:conflict_N_expected',
                      'cli:consensus_reads_checked', 'split:max_N_span']
 SHARD_TIMEOUT = {'quick': 900, 'thorough': 5400}
 
 
 def gen_cases(tier, seed):
-    n = 64 if tier == 'quick' else 700
+    n = 64 if tier == 'quick' else 3000
     return [{'i': i, 'seed': seed} for i in range(n)]
 
 
